@@ -300,16 +300,18 @@ def certifiedSemP (prog : List CStmt) : Bool :=
 theorem certifiedSemP_eq (prog : List CStmt) : certifiedSemP prog = certifiedSem prog := rfl
 
 /-- which conjuncts of `certifiedSem` (= `certifiedSemP`) hold (diagnostics for the evidence): ctx ok, WFStmts, WFES,
-    CarveProgSem, HybFreeSs, HSameProg.  A bare pure value statement `e;` counts under WFES (`e` is among `exprsOf`),
+    CarveProgSem, HybFreeSs, HSameProg; a seventh digit: CarveProgSem with the low-bits flag (the conjunct `certifiedSemX`
+    has in its place).  A bare pure value statement `e;` counts under WFES (`e` is among `exprsOf`),
     CarveProgSem (`CarveESem e`), HybFreeSs (`HybFree e`), HSameProg (`HSame e`). -/
 def certifiedSemDetail (prog : List CStmt) : String :=
   let c := ctxOf prog
   let b := fun (x : Bool) => if x then "1" else "0"
-  b c.ok ++ b (WFStmts c prog) ++ b ((exprsOfList prog).all (WFES c)) ++ b (CarveProgSem prog) ++ b (HybFreeSs prog) ++ b (HSameProg Cfg.asCode prog)
+  b c.ok ++ b (WFStmts c prog) ++ b ((exprsOfList prog).all (WFES c)) ++ b (CarveProgSem prog) ++ b (HybFreeSs prog) ++
+    b (HSameProg Cfg.asCode prog) ++ b (CarveProgSem prog true)
 
 /-- the diagnostics the driver reports: of the behaviour itself when its certificate holds, else of the behaviour
     without the bare immediate reads in front of an assignment to the same immediate (`certifiedSemB`) -/
 def certDetail (prog : List CStmt) : String :=
-  if certifiedSem prog then certifiedSemDetail prog else certifiedSemDetail (dropBare prog)
+  if certifiedSem prog || certifiedSemX prog then certifiedSemDetail prog else certifiedSemDetail (dropBare prog)
 
 end Rzil
